@@ -59,6 +59,9 @@ type matcherCompiler struct {
 	// All dots found during match compilation.
 	dots []token.Pos
 
+	// Type of the list each of them stands in.
+	dotKinds map[token.Pos]reflect.Type
+
 	patchStart, patchEnd token.Pos
 
 	// Number of times each metavariable occurs in the "-" side of the
